@@ -355,4 +355,35 @@ def truthful (prog : Program) (base M : DB) (rel : String) (target : Tuple) (exp
       | none => false
       | some b => blockerHolds base M p.1 target p.2.bindings b)
 
+/-- canonical stored values: what the engine stores and derives — integers are `Int64`, no floats
+    (`valuesEqual` is then plain equality). -/
+def canonV : Value → Bool
+  | .i32 _ => false
+  | .f64 _ => false
+  | _ => true
+def canonDB (db : DB) : Bool := db.all (fun p => p.2.all (fun t => t.all canonV))
+
+def rankOf (rk : List (String × Nat)) (rel : String) : Nat := (rk.lookup rel).getD 0
+
+/-- the fragment of `C22_partial`: positive bodies only (no negation, no comparison), supported terms,
+    non-recursive with the given rank table (every body relation ranks strictly below the head),
+    relations with rules store no facts, only they have derived tuples, canonical data, at least one
+    proof per tuple allowed. -/
+def c22Fragment (prog : Program) (base M : DB) (rk : List (String × Nat)) : Bool :=
+  prog.all (fun r =>
+    r.supported && (base.get r.head.rel).isEmpty &&
+    r.body.all (fun
+      | .pos a => decide (rankOf rk a.rel < rankOf rk r.head.rel)
+      | _ => false)) &&
+  derivedOnlyHeads prog M && canonDB base && canonDB M
+
+/-- every derived tuple is supported by a clause instance over the world `(base, M)` (one step of the
+    immediate-consequence operator, run by the reference evaluator): true of the perfect model. -/
+def supportedModel (prog : Program) (base M : DB) : Bool :=
+  M.all (fun p => p.2.all (fun t =>
+    (prog.filter (fun r => r.head.rel == p.1)).any (fun r =>
+      match unifyHead t r.head with
+      | none => false
+      | some β0 => !(evalBody (world base M) (world base M) r.body [β0]).isEmpty)))
+
 end ILV.Prov
